@@ -19,7 +19,7 @@
                                   completed CONNECT *)
 From Coq Require Import List Arith Bool String Relations.
 Import ListNotations.
-From GM Require Import Gen.LockOrder Model.LockOrder Model.ConnLife Model.StopLife
+From GM Require Import Gen.LockOrder Gen.StopOrder Model.LockOrder Model.ConnLife Model.StopLife
   Proofs.FiniteSys Proofs.LockOrderP Proofs.LockTableP Proofs.ConnLifeP Proofs.StopLifeP.
 
 (* ---------------------------------------------------------------- lock order *)
@@ -113,6 +113,37 @@ Theorem C15_stop_terminates :
   (forall s, sreachable false s -> ends_in snext (fun s => nil_end s = true) s).
 Proof. exact stop_terminates_both. Qed.
 Print Assumptions C15_stop_terminates.
+
+(* the ORDER of the operations inside Stop, over Gen/StopOrder.v (the body of stopOnce.Do in source
+   order, regenerated on every run): every operation occurs exactly once; exit(), the closing of
+   all TCP listeners and the shutdown of all websocket servers precede the snapshot-and-Close of
+   srv.clients, which is taken under srv.mu; the wait is outside srv.mu; Unload and then OnStop come
+   after the wait.  And the order is the one of the model: mapping the operations to the program
+   counters of Model/StopLife.v gives owner_phases = [O1; O2; O3; O4; O5], so the Stop theorems above
+   are about the order the source has. *)
+Theorem C15_stop_order :
+  ((forall o, count_op o stop_ops = 1) /\ (forall a b, In (a, b) required_order -> before a b stop_ops)) /\
+  phases stop_ops = owner_phases.
+Proof. exact stop_order_all. Qed.
+Print Assumptions C15_stop_order.
+
+Theorem C15_stop_order_core :
+  before SExit SSnapshotCloseClients stop_ops /\ before SCloseListeners SSnapshotCloseClients stop_ops /\
+  before SShutdownWebsockets SSnapshotCloseClients stop_ops /\
+  before SLock SSnapshotCloseClients stop_ops /\ before SSnapshotCloseClients SUnlock stop_ops /\
+  before SUnlock SWait stop_ops /\ before SWait SUnload stop_ops /\ before SUnload SOnStop stop_ops.
+Proof. exact stop_order_core. Qed.
+Print Assumptions C15_stop_order_core.
+
+(* the owner of the Once in the model goes through these program counters in this order *)
+Theorem C15_stop_model_follows_order : forall a s s', In s' (step_caller a s) ->
+  (caller a s = O1 -> caller a s' = O2) /\
+  (caller a s = O2 -> caller a s' = O3) /\
+  (caller a s = O3 -> caller a s' = O4 \/ caller a s' = O7) /\
+  (caller a s = O4 -> caller a s' = O5 /\ unl s' = S (unl s)) /\
+  (caller a s = O5 -> caller a s' = O6 /\ ons s' = S (ons s)).
+Proof. exact owner_follows_phases. Qed.
+Print Assumptions C15_stop_model_follows_order.
 
 (* PARTIAL (of "Stop returns after closing all connections"): the connections that were
    registered when Stop looked are closed when it returns normally; Unload/OnStop come after that *)
